@@ -297,3 +297,196 @@ def check_fifo(ctx, rule="R4-get_sample-is-FIFO"):
             ctx.ob(rule, c, stt, f"sample number {k + 1} of a get_sample run is {g!r}, expected {w!r} (prefetch block of 3): the run is not the concatenation of the prefetched blocks"[:300], where)
         else:
             ctx.violated(rule, c, f"7 samples consumed {len(blocks)} prefetch blocks of sizes {blocks!r} (expected 3 blocks of the buffer size)", where)
+
+
+# ============================================================================ C18
+def check_filter_design(ctx, rule_c="R1-bilinear-coefficients", rule_p="R2-corner-placement", rule_s="R3-scaling"):
+    repo = ctx.repo
+    setup()
+    key = f"{NOISE}::alpha_noise"; where = repo.where(key, repo.get(key)); ctx.analysed(key + ".__init__", key + "._calc_filter_coeffs")
+    KIND.update({"flo": "pos", "fhi": "pos"})
+    # ---- bilinear first-order section  (s + w1)/(s + w0)  ->  a0, a1, b1
+    I = make_interp(repo)
+    o = Obj(key, {"_fs": X.var("fs")})
+    m = f"{key}._calc_filter_coeffs"
+    r = I.call_func(Func(m, repo.get(m)), [o, X.var("flo"), X.var("fhi")], {}, St(), None)
+    fs, flo, fhi, pi = X.var("fs"), X.var("flo"), X.var("fhi"), X.var("pi")
+    want = ((fs + pi * fhi) / (fs + pi * flo), -(fs - pi * fhi) / (fs + pi * flo), (fs - pi * flo) / (fs + pi * flo))
+    if isinstance(r, tuple) and len(r) == 3 and all(to_x(v) is not None for v in r):
+        for nm, got, w in zip(("a0", "a1", "b1"), r, want):
+            ctx.compare(rule_c, f"{m}[{nm}]", to_x(got), w, repo.where(m, repo.get(m)), detail=f"bilinear transform of (s+2*pi*f_hi)/(s+2*pi*f_lo): {nm}")
+    else:
+        ctx.unknown(rule_c, m, f"coefficients not recognised: {r!r}"[:200], where)
+    # ---- corner placement and packing, through the constructor
+    I = make_interp(repo)
+    rec = []
+    base_call = None
+
+    def call(I_, f, args, kwargs, st, node):
+        if f.key == m:
+            rec.append(list(args)); return NotImplemented
+        return NotImplemented
+    I.hooks["call"] = call
+    try:
+        obj = instantiate(I, "alpha_noise", seed=X.var("seed"))
+    except Unknown as ex:
+        ctx.unknown(rule_p, key, str(ex), where); return
+    if not isinstance(obj, Obj) or not rec:
+        ctx.unknown(rule_p, key, "constructor not interpreted up to the coefficient computation", where); return
+    fmin, fmax, al = X.var("fmin"), X.var("fmax"), X.var("alpha")
+    two_pi = X.const(2) * pi
+    lw0 = mk_fn("log10", [two_pi * fmin]); lw1 = mk_fn("log10", [two_pi * fmax])
+    n_ref = mk_fn("ceil", [X.const(Fr(9, 2)) * (lw1 - lw0)])
+    n = to_x(obj.attrs.get("_num_spectra"))
+    if n is None: ctx.unknown(rule_p, key + "[sections]", f"{obj.attrs.get('_num_spectra')!r}", where)
+    else: ctx.compare(rule_p, key + "[number of sections]", n, n_ref, where, detail="n = ceil(4.5 * (log10 w_max - log10 w_min))")
+    dp = (lw1 - lw0) / n_ref
+    a_lo, a_hi = rec[0][1], rec[0][2]
+    for label, got, shift in (("pole corners", a_lo, X.const(0)), ("zero corners", a_hi, dp * al / 2)):
+        A = as_arr(got)
+        c = f"{key}[{label}]"
+        if A is None or A.ndim != 1 or to_x(A.body) is None:
+            ctx.unknown(rule_p, c, f"{got!r}"[:160], where); continue
+        iv = X.var(A.axes[0][0])
+        lp = lw0 + dp * (iv + Fr(1, 2) - al / 4) + shift
+        wantf = mk_fn("pow", [X.const(10), lp], "pos") / two_pi
+        okc, _ = compare(A.axes[0][1], n_ref)
+        st_, why = compare(to_x(A.body), wantf)
+        ctx.ob(rule_p, c, st_ if okc == HOLDS else okc, ("f_i = 10^(log10 w_min + dp*(i + 1/2 - alpha/4)" + (" + dp*alpha/2" if label.startswith("zero") else "") + ")/(2 pi): " + why) if st_ != HOLDS else "", where,
+               lhs=to_x(A.body), rhs=wantf)
+    # effective corners and scaling
+    f0 = to_x(obj.attrs.get("_fmin")); f1 = to_x(obj.attrs.get("_fmax")); sc = to_x(obj.attrs.get("_scaling"))
+    lo_arr, hi_arr = as_arr(a_lo), as_arr(a_hi)
+    if None in (f0, f1, sc) or lo_arr is None or hi_arr is None:
+        ctx.unknown(rule_s, key, "effective corners / scaling not recognised", where)
+    else:
+        first = to_x(arr_index(lo_arr, X.const(0))); last = to_x(arr_index(hi_arr, hi_arr.axes[0][1] - 1))
+        ctx.compare(rule_s, key + "[fmin]", f0, first, where, detail="effective lower corner = first pole corner")
+        ctx.compare(rule_s, key + "[fmax]", f1, last, where, detail="effective upper corner = last zero corner")
+        ctx.compare(rule_s, key + "[scaling]", sc, X.const(1) / mk_fn("pow", [last, al / 2], "pos"), where, detail="output scaled by fmax^(-alpha/2): unit density at 1 Hz")
+    # packing for the cascade: numerator rows [a0, a1], denominator rows [1, -b1]
+    ac, bc = as_arr(obj.attrs.get("_a_coeffs")), as_arr(obj.attrs.get("_b_coeffs"))
+    if ac is None or bc is None or ac.ndim != 2 or bc.ndim != 2:
+        ctx.unknown(rule_c, key + "[packing]", f"coefficient arrays not recognised: {obj.attrs.get('_a_coeffs')!r}"[:200], where)
+    else:
+        I2 = make_interp(repo)
+        for nm, arrv, col, sign in (("a0", ac, 0, 1), ("a1", ac, 1, 1), ("1", bc, 0, 1), ("-b1", bc, 1, -1)):
+            rowv, colv = arrv.axes[0][0], arrv.axes[1][0]
+            el = subst_val(arrv.body, {colv: X.const(col)})
+            el = to_x(el) if not isinstance(el, PV) else None
+            c = f"{key}[packing {nm}]"
+            if el is None: ctx.unknown(rule_c, c, "element not recognised", where); continue
+            lo_i = to_x(arr_index(lo_arr, X.var(rowv))); hi_i = to_x(arr_index(hi_arr, X.var(rowv)))
+            den = fs + pi * lo_i
+            wantv = {"a0": (fs + pi * hi_i) / den, "a1": -(fs - pi * hi_i) / den, "1": X.const(1), "-b1": -(fs - pi * lo_i) / den}[nm]
+            ctx.compare(rule_c, c, el, wantv, where, detail=f"row i of the packed coefficients holds {nm} of section i")
+    # the white source has unit density at the generator's sampling rate
+    w = obj.attrs.get("_whitenoise")
+    okw = isinstance(w, Obj) and to_x(w.attrs.get("_fs")) is not None and to_x(w.attrs["_fs"]).eq(fs) and to_x(w.attrs.get("_rms")) is not None and to_x(w.attrs["_rms"]).eq(fs.sqrt())
+    (ctx.holds if okw else ctx.violated)(rule_s, key + "[white source]", "white_noise(fs, psd=1)" if okw else "the driving white source does not have unit density at fs", where)
+
+
+def check_fftnoise(ctx, rule="R4-hermitian-random-phase"):
+    repo = ctx.repo
+    key = f"{NOISE}::fftnoise"; fn = repo.get(key); where = repo.where(key, fn); ctx.analysed(key)
+    setup()
+    ARRAY_KIND["spec"] = "complex"; ARRAY_KIND["phi"] = "real"
+    bad = []
+    for N in range(2, 10):
+        I = make_interp(repo)
+        caught = []
+
+        def lib(I_, name, args, kw, st, n, caught=caught):
+            if name == "numpy.fft.ifft":
+                caught.append(args[0]); return ArrParam("ifft_out", kind="complex")
+            if name == "numpy.random.default_rng":
+                return Obj("rng")
+            return NotImplemented
+        I.hooks["lib"] = lib
+
+        def method(I_, o, name, args, kw, st, n):
+            if isinstance(o, Obj) and o.cls == "rng" and name == "random":
+                cnt = to_x(args[0]) if args else None
+                if cnt is None: return Opaque("rng.random size")
+                v = fresh("p")
+                return Arr([(v, cnt)], mk_idx("phi", [X.var(v)], "real"))
+            return NotImplemented
+        I.hooks["method"] = method
+        f = ArrParam("spec", shape=(X.const(N),), kind="complex")
+        try:
+            I.call_key(key, [f], {"rng": Obj("rng")}, St())
+        except Unknown as ex:
+            ctx.unknown(rule, f"{key}[N={N}]", str(ex), where); continue
+        if not caught:
+            ctx.unknown(rule, f"{key}[N={N}]", "spectrum handed to the inverse FFT not found", where); continue
+        F = as_arr(caught[0])
+        if F is None or F.ndim != 1:
+            ctx.unknown(rule, f"{key}[N={N}]", f"spectrum {caught[0]!r}"[:160], where); continue
+        Np = (N - 1) // 2
+        v = F.axes[0][0]
+        for k in range(N):
+            got = subst_val(F.body, {v: X.const(k)})
+            gx = to_x(got) if not isinstance(got, PV) and not is_opaque(got) else None
+            fk = lambda j: mk_idx("spec", [X.const(j)], "complex")
+            th = lambda j: X.const(2) * X.var("pi") * mk_idx("phi", [X.const(j)], "real")       # phases uniform in [0, 2 pi)
+            ph = lambda j: mk_fn("cos", [th(j)]) + X(I_) * mk_fn("sin", [th(j)])
+            if k == 0 or (N % 2 == 0 and k == N // 2): want = fk(k).real()
+            elif 1 <= k <= Np: want = fk(k) * ph(k - 1)
+            else: want = (fk(N - k) * ph(N - k - 1)).conj()
+            if gx is None: bad.append((N, k, UNKNOWN, repr(got)[:120], None)); continue
+            st_, why = compare(gx, want)
+            if st_ != HOLDS: bad.append((N, k, st_, gx, want))
+    if not bad:
+        ctx.holds(rule, key, "for N = 2..9: bins 1..(N-1)//2 are rotated by unit phasors cos(phi)+i sin(phi), the mirror bins are their conjugates (index k <-> N-k), DC and Nyquist are real", where)
+    for N, k, st_, gx, want in bad[:4]:
+        ctx.ob(rule, f"{key}[N={N},bin {k}]", st_, f"spectrum bin {k} of a length-{N} request handed to the inverse FFT is not the prescribed Hermitian construction "
+               "(the result is not real with the prescribed magnitudes)", where, lhs=gx, rhs=want)
+
+
+def check_band_mask(ctx, rule="R5-band-mask-on-two-sided-grid"):
+    repo = ctx.repo
+    key = f"{NOISE}::band_limited_noise"; fn = repo.get(key); where = repo.where(key, fn); ctx.analysed(key)
+    setup()
+    KIND.update({"fa": "pos", "fb": "pos", "nsamp": "nat", "srate": "pos"})
+    I = make_interp(repo)
+    got = []
+
+    def call(I_, f, args, kwargs, st, node):
+        if f.key == f"{NOISE}::fftnoise":
+            got.append((list(args), dict(kwargs))); return ArrParam("noise_out")
+        return NotImplemented
+    I.hooks["call"] = call
+    try:
+        r = I.call_key(key, [X.var("fa"), X.var("fb")], {"samples": X.var("nsamp"), "samplerate": X.var("srate"), "rng": Obj("rng")}, St())
+    except Unknown as ex:
+        ctx.unknown(rule, key, str(ex), where); return
+    if not got:
+        ctx.violated(rule, key, "the spectrum is not synthesised through fftnoise", where); return
+    F = as_arr(got[0][0][0])
+    if F is None or F.ndim != 1:
+        ctx.unknown(rule, key, f"spectrum {got[0][0][0]!r}"[:160], where); return
+    v = F.axes[0][0]
+    okn, _ = compare(F.axes[0][1], X.var("nsamp"))
+    grid = mk_fn("fftfreq", [X.var(v), X.var("nsamp"), X.const(1) / X.var("srate")], "real").abs()
+    # body must be 1 where fa <= |fftfreq| <= fb and 0 elsewhere
+    conds = []
+    ok = True
+    for path, leaf in pv_leaves(F.body):
+        lx = to_x(leaf)
+        if lx is None: ok = False; break
+        inside = True
+        for cond, pol in path:
+            d = getattr(cond, "lt", None)
+            if d is None: ok = False; break
+            if d.eq(grid - X.var("fa")): inside = inside and (pol is False)          # not(|f| < fa)
+            elif d.eq(X.var("fb") - grid): inside = inside and (pol is False)        # not(fb < |f|)
+            else: ok = False; break
+        if not ok: break
+        if not lx.eq(X.const(1) if inside else X.const(0)): ok = False; break
+    if ok and okn == HOLDS:
+        ctx.holds(rule, key, "unit magnitude exactly on the bins with fa <= |fftfreq| <= fb of the full two-sided grid (hence symmetric), zero elsewhere", where)
+    else:
+        ctx.violated(rule, key, "the pass-band mask is not built from |fftfreq(samples, 1/samplerate)| on the full two-sided grid: bins outside the band (or only one of a +-f pair) "
+                     f"receive power; spectrum handed to fftnoise: {F!r}"[:400], where)
+    rng_ok = isinstance(got[0][1].get("rng"), Obj)
+    (ctx.holds if rng_ok else ctx.violated)(rule, key + "[rng]", "caller's generator forwarded" if rng_ok else "the caller's generator is not forwarded to fftnoise", where)
